@@ -27,7 +27,7 @@ LEVEL_TEXT = ("All capture rules of the stated families x all listings of the fa
               "compared with the reference matcher. Exhaustive within bounds.")
 LEVEL_NOTE = "Trusted: mc/refmodel.py capture semantics and its register-family table (taken from the x86 register file)."
 
-ALPHA_AB = [("mov", ["%rax", "%rbx"]), ("mov", ["%rbx", "%rax"]), ("mov", ["%rax", "%rax"]), ("push", ["%rax"]),
+ALPHA_AB = [("mov", ["(%rax)", "%rbx"]), ("mov", ["%rax", "%rbx"]), ("mov", ["%rbx", "%rax"]), ("mov", ["%rax", "%rax"]), ("push", ["%rax"]),
             ("push", ["%rbx"]), ("ret", [])]
 ALPHA_C = [("ret", []), ("push", ["$0x1"]), ("push", ["$0x10"]), ("push", ["%r8"]), ("push", ["%r8d"]), ("mov", ["$0x1", "%r8"]),
            ("mov", ["$0x10", "%r8d"]), ("mov", ["%r8", "$0x1"]), ("mov", ["%r8d", "$0x10"]), ("imul", ["$0x1", "%r8", "%r8d"]),
@@ -42,8 +42,13 @@ def bounds(tier):
 def fam_a(tier):
     rules = []
     items = ["&a", "&b", "push"]
+    # non-capturing items of every kind in front of the capture definitions: none of them may add a numbered group
     prefixes = [None, {"push": {"times": 2}}, {"$or": ["mov", "push"]}, {"$not": ["ret"]},
-                {"$and_any_order": ["mov", "push"]}, {"mov": {"times": {"min": 0, "max": 1}}}]
+                {"$and_any_order": ["mov", "push"]}, {"mov": {"times": {"min": 0, "max": 1}}},
+                {"$and": ["mov", "push"]}, {"$and": ["mov", "push"], "times": 2}, {"$or": ["mov", "push"], "times": 2},
+                {"$not": ["ret"], "times": 2}, {"$and_any_order": ["mov", "push"], "times": {"min": 1, "max": 2}},
+                {"mov": ["rax"], "times": 2}, {"mov": [{"$or": ["rax", "rbx"]}, {"$not": ["rcx"]}]},
+                {"mov": [{"$and_any_order": ["rax", "rbx"]}]}, {"mov": [{"$deref": {"main_reg": "rax"}}]}]
     for n in (2, 3, 4):
         for seq in itertools.product(items, repeat=n):
             if not any(s.startswith("&") for s in seq):
@@ -67,6 +72,10 @@ def fam_b(tier):
                 continue
             rules.append(e1.RuleCase("B", [{"mov": o1}, {"mov": o2}], "ab", want=W))
             rules.append(e1.RuleCase("B", [{"mov": o1}, "push", {"mov": o2}], "ab", want=W))
+    # operand-level operators in front of a capture definition inside the same operand list
+    for front in ({"$not": ["rbx"]}, {"$or": ["rax", "rbx"]}, {"$and_any_order": ["rax"]}, {"$deref": {"main_reg": "rax"}}):
+        rules.append(e1.RuleCase("B4", [{"mov": [front, "&x"]}, {"push": ["&x"]}], "ab", want=W))
+        rules.append(e1.RuleCase("B4", [{"mov": [front, "&x"]}, {"mov": ["&x"]}], "ab", want=W))
     for later in ({"$or": ["&x", "rbx"]}, {"$not": ["&x"]}, {"$and_any_order": ["&x", "rbx"]}, {"$or": ["rbx", "&x"]}):
         rules.append(e1.RuleCase("B2", [{"push": ["&x"]}, {"mov": [later]}], "ab", want=W))
         rules.append(e1.RuleCase("B2", [{"push": ["&x"]}, {"mov": [later, "rax"]}], "ab", want=W))
